@@ -2,7 +2,7 @@
 from ..framework import rule
 from ..core import *
 from ..lib import *
-from ..wirelib import ret_origin, wire_views
+from ..wirelib import ret_origin, wire_views, buffer_accesses, const_of
 from ..loops import strict_parsers, loops
 from .c04 import const_int
 from .c07 import check_loops
@@ -428,7 +428,14 @@ def _sig(n):
 WRITE_ONLY_USERS = ('::emit', '::emit_header', '::fill_checksum', 'call_once', 'call_mut', '::unwrap', '::payload_mut')
 
 
-@rule('R03.5', ['C03', 'C07'], floor=25, clause='a view created unchecked on the ingress path is either only written, or read solely through a Repr::parse that validates the length (check_len) before touching any field')
+def _canon_slice(n):
+    n = strip(simplify(n))
+    while n[0] in ('ref', 'deref') or (n[0] == 'cast'):
+        n = strip(n[1])
+    return n
+
+
+@rule('R03.5', ['C03', 'C07'], floor=25, clause='a view created unchecked on the ingress path is either only written, or read through a Repr::parse that validates the length (check_len) before touching any field, or through an accessor whose reach an explicit length test of the wrapped slice covers')
 def r03_5(ctx):
     """icmp::Socket::accepts_* wraps the datagram quoted inside an ICMP error with new_unchecked and relies
     on udp/tcp Repr::parse to reject short quotes.  Every such reader must start with check_len."""
@@ -466,11 +473,32 @@ def r03_5(ctx):
                     readers.setdefault(un, []).append((k, y[0]))
                     continue
                 fnm = k.rsplit('::', 1)[-1]
+                # a single accessor behind an explicit length test of the wrapped slice that covers its reach
+                ab = F.bodies.get(un)
+                vadt_ = ab.meta.get('impl_self') if ab is not None else None
+                accs = buffer_accesses(F, ab, vadt_) if ab is not None and vadt_ in views else None
+                reach_ = max([a['const'] for a in accs], default=None) if accs and all(a['const'] is not None for a in accs) else None
+                src_ = _canon_slice(F.origin.operand(b, x[2][0], x[0], len(b.blocks[x[0]]['s']))) if x[2] else None
+                if reach_ is not None and src_ is not None:
+                    def covers(f, src_=src_, reach_=reach_):
+                        if f[0] != 'rel':
+                            return False
+                        for a_, c_, ops in ((f[2], f[3], {'Ge': 0, 'Gt': 1}), (f[3], f[2], {'Le': 0, 'Lt': 1})):
+                            a_ = strip(simplify(a_))
+                            inner = a_[1] if a_[0] == 'len' else (a_[2][0] if a_[0] == 'call' and a_[1].endswith('::len') and a_[2] else None)
+                            cc = const_of(simplify(c_))
+                            if inner is not None and cc is not None and f[1] in ops and _canon_slice(inner) == src_ and cc + ops[f[1]] >= reach_:
+                                return True
+                        return False
+                    if not unguarded(F, b, [y[0]], covers):
+                        ctx.ok(('unchecked-view', k, un, y[0], 'length-tested'), sample=dict(fn=fnm, reads=un.rsplit('::', 1)[-1], octets=reach_, behind=f"len >= {reach_}"))
+                        continue
                 ctx.bad(f"{fnm}|unchecked-view-read|{last}", f"{k} reads an unchecked {nm.split('wire::')[-1].split('::new_')[0]} view through {un} "
                         "(attacker-controlled bytes, no length validation)", body=b, bb=y[0])
             ctx.ok(('unchecked-view', k, nm, x[0]))
     ctx.need(n >= 25, f"new_unchecked sites on the ingress path (found {n})")
-    ctx.need(readers, "Repr::parse readers of unchecked views (icmp::Socket::accepts_*)")
+    if not readers:
+        ctx.note("no Repr::parse reader of an unchecked view on the ingress path")
     for pk, users in sorted(readers.items()):
         pb = F.bodies.get(pk)
         if pb is None:
